@@ -486,7 +486,7 @@ def add_size_variants(chk, groups, num, den):
             continue
         w = g["which"]
         base = g["variants"][0]["tpls"]
-        size = rng.choice(SIZES[:2]) if (not chk.thorough or rng.chance(3, 4)) else SIZES[2]
+        size = rng.choice(SIZES[:2]) if (not chk.thorough or rng.chance(9, 10)) else SIZES[2]
         line = rng.choice(["padding text line\n", "t€xt é\n", "{{ 1 }} {# c #}\n"])
         k = size // blen(line) + 1
         ts = [list(x) for x in base]
@@ -992,8 +992,8 @@ def main():
         groups = (build_syntax_groups(chk) + build_eoi_groups(chk) + build_literal_groups(chk) + build_garbage_groups(chk, gspans) + build_runtime_groups(chk)
                   + build_matrix_groups(chk) + build_lazy_groups(chk) + build_recursion_groups(chk) + build_lineending_groups(chk)
                   + build_expr_groups(chk) + build_fuel_groups(chk))
-        add_size_variants(chk, [g for g in groups if isinstance(g.get("plant"), str) and "\n" in g["plant"] and g.get("sizable")], 1, 2 if chk.thorough else 3)
-        add_size_variants(chk, groups, 1, 8 if chk.thorough else 25)
+        add_size_variants(chk, [g for g in groups if isinstance(g.get("plant"), str) and "\n" in g["plant"] and g.get("sizable")], 1, 3)
+        add_size_variants(chk, groups, 1, 40 if chk.thorough else 25)
         add_prefix_variants(chk, groups, 1, 2 if chk.thorough else 4)
         add_prefix_variants(chk, [g for g in groups if g.get("construct", "").startswith("lazy-")], 1, 1)
         tabcases = build_table_cases(chk)
@@ -1241,18 +1241,18 @@ def main():
     kf = chk.match_known(lambda k: k["id"] == "empty-expression-unlocated")
     kf_str = chk.match_known(lambda k: k["id"] == "lexer-error-after-string-swallowed")
     kf_imp = chk.match_known(lambda k: k["id"] == "import-first-instructions-stale-line")
-    kf_call = chk.match_known(lambda k: k["id"] == "call-reported-on-last-argument-line")
+    kf_call = chk.match_known(lambda k: k["id"] == "filter-reported-on-last-argument-line")
     for gi, fails in pipe_fail:
         g = groups[gi]
         blank_expr = bool(g.get("flags", 0) & 64) and text_of(g["variants"][0]["tpls"][0]).strip() == ""
         imp_rec = g.get("construct", "").startswith("recursion-") and any(("{% import" in text_of(t) or "{% from" in text_of(t)) for t in g["variants"][0]["tpls"])
         ml_call = (g.get("matrix") and isinstance(g.get("plant"), str) and "\n" in g["plant"]
-                   and any(x in g["plant"] for x in ("nofunc(", "nomethod(", "nomacro(", "range(", "join(")))
+                   and "|join(" in g["plant"])
         for what, vi in fails:
             if kf_call and ml_call and what.startswith("planted in t%d line %d, root cause reported in t%d line " % (g["which"], g["pline"], g["which"])):
                 got = int(what.rsplit(" ", 1)[1])
                 if g["pstart"] < got <= g["pstart"] + g["plant"].count("\n"):
-                    chk.known_finding(kf_call["id"], "a call with arguments / a body on several lines is reported on a later line of the construct: %r (starts on line %d, reported on line %d)"
+                    chk.known_finding(kf_call["id"], "a filter with arguments on several lines is reported on the line of its last argument: %r (starts on line %d, reported on line %d)"
                                       % (g["plant"], g["pstart"], got))
                     continue
             if kf_str and g.get("after_string") and what.startswith("an illegal character planted"):
